@@ -589,7 +589,80 @@ def judge_failing_first(checker, sess, spec, result, order, t0, count):
             late[0], first_fail))
 
 
+def same_awaitable_twice(case):
+    """activities need not be coroutines: any awaitable will do, and the same re-usable
+    awaitable object (a queue, a ticket dispenser of the program's own) may be given several
+    times - every occurrence is an activity of its own with a result of its own"""
+    from usim import Queue, Scope
+    from ..probe import Session
+    rng = random.Random('%s/%s/c16-same' % (case['seed'], case['index']))
+    n = rng.randint(2, 4)
+    how = rng.choice(['collect-queue', 'collect-ticket', 'first-ticket', 'first-queue',
+                      'collect-mixed'])
+    log = []
+
+    class Ticket:
+        def __init__(self):
+            self.issued = 0
+
+        def __await__(self):
+            self.issued += 1
+            mine = self.issued
+            yield from (time + mine).__await__()
+            return 'ticket-%d' % mine
+
+    async def sleeper(value, delay):
+        await (time + delay)
+        return value
+
+    async def main():
+        queue, ticket = Queue(), Ticket()
+        for number in range(n):
+            await queue.put('item-%d' % number)
+        base = time.now
+        if how == 'collect-queue':
+            log.append(('collected', await usim.collect(*[queue] * n), time.now - base))
+        elif how == 'collect-ticket':
+            log.append(('collected', await usim.collect(*[ticket] * n), time.now - base))
+        elif how == 'collect-mixed':
+            log.append(('collected', await usim.collect(ticket, queue, ticket, queue),
+                        time.now - base))
+        else:
+            source = ticket if how == 'first-ticket' else queue
+            async for result in usim.first(*[source] * n, count=n):
+                log.append(('first', result, time.now - base))
+
+    sess = Session()
+    outcome = sess.run(main())
+    if how == 'collect-queue':
+        want = [('collected', ['item-%d' % number for number in range(n)], 0)]
+    elif how == 'collect-ticket':
+        want = [('collected', ['ticket-%d' % (number + 1) for number in range(n)], n)]
+    elif how == 'collect-mixed':
+        want = [('collected', ['ticket-1', 'item-0', 'ticket-2', 'item-1'], 2)]
+    elif how == 'first-ticket':
+        want = [('first', 'ticket-%d' % (number + 1), number + 1) for number in range(n)]
+    else:
+        want = [('first', 'item-%d' % number, 0) for number in range(n)]
+    violations = [dict(v) for v in sess.violations if v['mechanism'].startswith('kernel-')]
+    if outcome[0] != 'ok':
+        violations.append({'mechanism': 'c16:run-failed',
+                           'msg': '%s with the same awaitable object given %d times: run() '
+                                  'ended with %r' % (how, n, outcome[1])})
+    elif log != want:
+        violations.append({'mechanism': 'c16:collect-results' if how.startswith('collect')
+                           else 'c16:first-results',
+                           'msg': '%s with the same awaitable object given %d times: got %s, '
+                                  'expected %s' % (how, n, log, want)})
+    for vio in violations:
+        vio['case'] = dict(case)
+    return {'evals': 1, 'sigs': [sess.signature()], 'violations': violations, 'sample': None,
+            'stats': {'same_awaitable_given_several_times': 1, 'activations': sess.n}}
+
+
 def run_case(case):
+    if case['index'] % 25 == 11 and case.get('plan') is None:
+        return same_awaitable_twice(case)
     rng = random.Random('%s/%s/c16-inj' % (case['seed'], case['index']))
     return inject.explore(case, build_for(case), rng, check, case['tier'],
                           quick_samples=8, max_plans=300)
